@@ -91,6 +91,7 @@ type verifOut struct {
 	Requests  []verifReq          `json:"requests,omitempty"`
 	BaseURL   string              `json:"base_url,omitempty"`
 	PromText  string              `json:"prom_text,omitempty"`
+	BeganNs   int64               `json:"began_unix_ns,omitempty"`
 }
 
 func TestVerifDriver(t *testing.T) {
@@ -578,7 +579,7 @@ func verifE2E(op *verifOp, res *verifOut) {
 	if op.Server == "unix" {
 		base = "http://127.0.0.1" // a literal address: with the default -dns-ttl the host of the URL is still looked up
 	}
-	res.BaseURL = base
+	res.BaseURL, res.BeganNs = base, began.UnixNano()
 	addr := strings.TrimPrefix(strings.TrimPrefix(base, "https://"), "http://")
 	port := addr[strings.LastIndexByte(addr, ':')+1:]
 	certFile := op.Dir + "/server-cert.pem"
